@@ -95,7 +95,7 @@ _BUILTINS: Dict[str, Callable] = {
     "hasattr": hasattr,
 }
 _TYPES = {"bool": bool, "int": int, "float": float, "str": str, "list": list, "tuple": tuple,
-          "dict": dict, "set": set}
+          "dict": dict, "set": set, "slice": slice}
 _STR_METHODS = {
     "lower", "upper", "casefold", "strip", "lstrip", "rstrip", "startswith", "endswith", "split",
     "replace", "isdigit", "join", "title", "capitalize",
@@ -180,6 +180,8 @@ class Evaluator:
                 return base.__dict__[n.attr]
             raise Unfoldable(f"attribute {n.attr} not in domain object")
         if isinstance(base, tuple) and hasattr(base, "_fields") and n.attr in base._fields:
+            return getattr(base, n.attr)
+        if isinstance(base, slice) and n.attr in ("start", "stop", "step"):
             return getattr(base, n.attr)
         d = getattr(base, "__dict__", None)
         if isinstance(d, dict) and n.attr in d and not n.attr.startswith("__"):
